@@ -132,6 +132,11 @@ def bootstrap_ci(
 
         ci = np.empty((metric_size, 2))
         for j in range(metric_size):
+            if np.isnan(alpha_hat_lower[j]) or np.isnan(alpha_hat_upper[j]):
+                # No finite replicate for this component: its interval is undefined,
+                # the other components are unaffected.
+                ci[j] = np.nan
+                continue
             ci[j] = np.nanquantile(
                 theta[:, j], q=[alpha_hat_lower[j], alpha_hat_upper[j]], axis=0
             )
